@@ -64,7 +64,13 @@ pub fn gen(rng: &mut Prng, plan: &mut Plan) {
         let op = ops[rng.weighted(&w)];
         let mut s = Step::new(op);
         if matches!(op, "nth" | "nth_back" | "take" | "take_back" | "step2" | "skip_next" | "alt") {
-            s = s.i("k", rng.below(4) as i128);
+            let k: i128 = if rng.chance(1, 12) && op != "alt" && op != "step2" {
+                // far beyond the end: index arithmetic at the edge of usize
+                *rng.pick(&[usize::MAX as i128, usize::MAX as i128 - 1, (usize::MAX / 2) as i128, (usize::MAX / 2) as i128 + 1, 1 << 32, 13])
+            } else {
+                rng.below(4) as i128
+            };
+            s = s.i("k", k);
         }
         plan.steps.push(s);
     }
@@ -263,7 +269,7 @@ fn drive<T: Word, I>(
             "size_hint" => e_sz = Some((model.len(), Some(model.len()))),
             "take" => {
                 front |= k > 0;
-                for _ in 0..k {
+                for _ in 0..k.min(model.len()) {
                     if let Some(x) = model.pop_front() {
                         e_items.push(x.as_u64());
                     }
@@ -271,7 +277,7 @@ fn drive<T: Word, I>(
             }
             "take_back" => {
                 back |= k > 0;
-                for _ in 0..k {
+                for _ in 0..k.min(model.len()) {
                     if let Some(x) = model.pop_back() {
                         e_items.push(x.as_u64());
                     }
